@@ -26,6 +26,8 @@ CLAIMS = {
          "explicit-state BFS over event histories on the real supervisor code, canonical-state deduplication with a no-dedup prefix", "Trusted base: the fake gen.Process (about 120 lines: fresh pids for Spawn, name table, recorded SendExit, exit signals pushed into the real Urgent queue) stands for the node; the reference model is my reading of the documented semantics; bounds: <=3 children, history depth as reported."),
  "C09": ("model_checking", "Complete enumeration of failure-time sequences (length <= Intensity+2/+3 over gaps {0,1ms,500ms,P-1ms,P,P+1ms,2P}, Intensity 1..4, Period 1..3 s) against the real supCheckRestartIntensity under a virtual clock, and of gap sequences through the four real supervisor types (fake process, virtual clock): gives up exactly when more than Intensity failures lie within the period, with ErrSupervisorRestartsExceeded, after all children stopped.", "3 C09",
          "exhaustive enumeration of timing sequences on the real code under a virtual clock", "Trusted base: virtual clock shim; a failure exactly Period old is accepted either way; gap alphabet as listed."),
+ "C10": ("model_checking", "Fault-point enumeration on the real node: for supervision trees (each supervisor type, nested supervisors, pool, application {supervisor, worker}, node {tree, free process}) one Kill of every member is placed at every scheduling point (delay bound 1; 2 in the thorough tier) of the steady state, an ongoing restart, an ongoing shutdown, ApplicationStop/StopForce and Node.Stop; start-up failures of every member; orphan oracle at quiescence and liveness snapshot at the moment a graceful stop returns.", "3 C10",
+         "fault-point enumeration = stateless schedule enumeration with a low-priority one-operation fault thread", SCHED_NOTE),
  "C17": ("model_checking", "Histories: BFS over start/stop/stop-force/unload/member-exit sequences for each mode against a lifecycle model (state, live members, callback counts, reasons) on the real node; all dependency graphs x failing member positions; races: every schedule within the bound of concurrent member deaths, stop vs crash, start vs start, stop vs stop, member death during start-up.", "3 C17",
          "explicit-state BFS over operation histories + stateless schedule enumeration on the real node", SCHED_NOTE),
  "C19": ("model_checking", "Every schedule within the bound of 1-2 clients sending/calling through a real act.Pool (size 1-3, bounded worker mailboxes, parked worker, dead worker, worker crash, Add/RemoveWorkers); exactly-once, original-sender, own-reply, drop-accounting and ring-membership oracles.", "3 C19",
